@@ -696,7 +696,7 @@ func tokensHandler(w http.ResponseWriter, r *http.Request, g, pth string) {
 			httpError(w, err)
 			return
 		}
-		if old.Group != g {
+		if old != nil && old.Group != g {
 			http.Error(w, "token exists in different group",
 				http.StatusConflict)
 			return
